@@ -144,8 +144,12 @@ def one(rep, prog, cfg):
                               "the responder of the in-flight request is answered with something other than the result of the receive that follows its request (%s)" % pre)
                 else:
                     # a responder taken from the queue and not (successfully) written: only errors may go to it
-                    ok = err_only and all(p is not None for p in pre.values())
-                    rep.check(ok, "C01.noleak", inst, co.loc(co.blocks[bb]["ts"]),
+                    # ... and the error must be the failure of a connection step (MpdProtocolError), not an ACK found inside a reply
+                    # that was received successfully: that ACK answers the client's own idle / noidle, not the caller's request
+                    ety = error_source_type(co, fl, op_local(t["args"][1])) if err_only else None
+                    step_error = ety is not None and ("MpdProtocolError" in ety or "std::io::error::Error" in ety)
+                    ok = err_only and step_error and all(p is not None for p in pre.values())
+                    rep.check(ok, "C01.noleak", inst + ("" if step_error or not err_only else " error type " + (ety or "?").rsplit("::", 1)[-1]), co.loc(co.blocks[bb]["ts"]),
                               "a responder whose request has not been written receives a value that is not the error of the failed step "
                               "(e.g. the reply to noidle / idle): %s" % pre)
                 # C01.cancel
@@ -205,6 +209,36 @@ def value_is_error(body, local, depth=8):
             continue
         return False
     return False
+
+
+def error_source_type(body, fl, local):
+    """Type of the value an `Err(..)` handed to a responder was built from (through into / from / moves)."""
+    for _ in range(8):
+        if local is None:
+            return None
+        defs = [s for bb, i, s in body.stmts() if s["k"] == "assign" and s["place"]["l"] == local and not s["place"]["p"]]
+        if len(defs) == 1 and defs[0]["rv"]["k"] == "agg" and defs[0]["rv"].get("variant") == "Err" and defs[0]["rv"]["ops"]:
+            local = op_local(defs[0]["rv"]["ops"][0])
+            break
+        if len(defs) == 1 and defs[0]["rv"]["k"] == "use":
+            local = op_local(defs[0]["rv"]["op"])
+            continue
+        return None
+    # back through conversions to the binding the error was matched out of
+    for _ in range(8):
+        if local is None:
+            return None
+        defs = [s for bb, i, s in body.stmts() if s["k"] == "assign" and s["place"]["l"] == local and not s["place"]["p"]]
+        cdefs = [t for bb, t in body.calls() if t["dest"]["l"] == local and not t["dest"]["p"]]
+        if len(cdefs) == 1 and not defs and identity_through(cdefs[0]) is not None and cdefs[0]["args"]:
+            local = op_local(cdefs[0]["args"][0])
+            continue
+        if len(defs) == 1 and not cdefs and defs[0]["rv"]["k"] == "use" and op_local(defs[0]["rv"]["op"]) is not None \
+                and not (op_place(defs[0]["rv"]["op"]) or {}).get("p"):
+            local = op_local(defs[0]["rv"]["op"])
+            continue
+        return body.local_ty(local)
+    return body.local_ty(local) if local is not None else None
 
 
 def single_writer(rep, prog, cfg, res):
